@@ -30,7 +30,7 @@ def gen_small_chunks(rng, bads=True):
         elif r < 0.95:
             lines.append('bad dbl %d' % rng.randint(0, 30))
         else:
-            lines.append('bad outside %d' % rng.choice([-64, 8, 24, 4096 * rng.randint(0, 23) + 2000, 100000]))
+            lines.append('bad outside %d' % rng.choice([-64, 8, 24, 4096 * rng.randint(0, 23) + 3500, 100000]))
     return '\n'.join(lines) + '\n'
 
 
